@@ -888,7 +888,34 @@ impl<'a> Gen<'a> {
                             let m = self.rng.below(self.ex.models.len() as u64) as usize;
                             let nm = format!("l{}.arxml", self.rng.below(4));
                             let strict = self.rng.below(2) == 0;
-                            self.push(Op::Load(m, t.into_bytes(), nm.into_bytes(), strict));
+                            let r = self.push(Op::Load(m, t.into_bytes(), nm.into_bytes(), strict));
+                            // follow-up of a merge: an overlapping load leaves the dropped duplicates behind as dead entries of the
+                            // referrer lists; a reference to the same target registered AFTERWARDS sits behind them, and a rename of
+                            // the target (or of its package) has to reach it
+                            if r.starts_with("R OK") && self.rng.below(2) == 0 {
+                                let model = self.ex.models[m].clone();
+                                let refs: Vec<usize> = (0..self.ex.handles.len())
+                                    .filter(|k| self.ex.handles[*k].is_reference() && self.ex.handles[*k].model().ok().as_ref() == Some(&model))
+                                    .collect();
+                                let with_target: Vec<(usize, Element)> =
+                                    refs.iter().filter_map(|k| self.ex.handles[*k].get_reference_target().ok().map(|t| (*k, t))).collect();
+                                if !with_target.is_empty() && refs.len() >= 2 {
+                                    let (r1, tgt) = with_target[self.rng.below(with_target.len() as u64) as usize].clone();
+                                    let others: Vec<usize> = refs.iter().copied().filter(|k| *k != r1).collect();
+                                    let r2 = others[self.rng.below(others.len() as u64) as usize];
+                                    if let Some(tk) = self.ex.hidx.get(&tgt).copied() {
+                                        self.push(Op::SetRefTarget(r2, tk));
+                                        // rename the target itself or its named parent
+                                        let victim = if self.rng.below(2) == 0 { Some(tk) } else {
+                                            tgt.named_parent().ok().flatten().and_then(|p| self.ex.hidx.get(&p).copied())
+                                        };
+                                        if let Some(vk) = victim {
+                                            let item = self.item_name();
+                                            self.push(Op::SetItemName(vk, item));
+                                        }
+                                    }
+                                }
+                            }
                         }
                     }
                 }
